@@ -61,6 +61,32 @@ func (s SchemaSchema) applyNamespace() {
 	}
 }
 
+// validateReferences reports a reference that is still unlinked after the step scopes were applied to
+// themselves, i.e. a reference into a namespace that a plugin schema has no way to provide.
+func (s SchemaSchema) validateReferences() error {
+	for _, step := range s.StepsValue {
+		if err := step.InputValue.ValidateReferences(); err != nil {
+			return err
+		}
+		for _, output := range step.OutputsValue {
+			if err := output.ValidateReferences(); err != nil {
+				return err
+			}
+		}
+		for _, signal := range step.SignalHandlersValue {
+			if err := signal.DataSchema().ValidateReferences(); err != nil {
+				return err
+			}
+		}
+		for _, signal := range step.SignalEmittersValue {
+			if err := signal.DataSchema().ValidateReferences(); err != nil {
+				return err
+			}
+		}
+	}
+	return nil
+}
+
 func NewCallableSchema(
 	steps ...CallableStep,
 ) *CallableSchema {
